@@ -36,6 +36,12 @@ Ltac meas_simpl :=
   rewrite ?filter_app, ?app_length, ?filter_flush_repeat_put, ?filter_flush_repeat_flush in *;
   cbn [status_eqb b2n filter is_flush length app] in *.
 
+Definition is_iflush (o : op) : bool := match o with IFlush => true | _ => false end.
+Definition niflush (T : task) : nat := length (filter is_iflush (prog T)).
+
+Lemma filter_repeat : forall (f : op -> bool) o n, filter f (repeat o n) = if f o then repeat o n else [].
+Proof. induction n; cbn; [destruct (f o); auto|]. rewrite IHn. destruct (f o); auto. Qed.
+
 Record inv1 (s : state) : Prop := {
   i_W : W s = sumf in_get (tasks s);
   i_cg : cover BlkGet (getters s) (tasks s);
@@ -44,7 +50,8 @@ Record inv1 (s : state) : Prop := {
   i_nf : flushed s = false -> sumf nflush (tasks s) = 0;
   i_hf : has_flush (q s) = true -> flushed s = true;
   i_np : closed s = true -> npre s <= length (sent s);
-  i_dc : drained s = true -> closed s = true
+  i_dc : drained s = true -> closed s = true;
+  i_if : closed s = false -> sumf niflush (tasks s) = 0
 }.
 
 Lemma has_flush_app : forall a b, has_flush (a ++ b) = has_flush a || has_flush b.
@@ -54,5 +61,110 @@ Lemma W_step : forall s t s', step s t = Some s' -> W s = sumf in_get (tasks s) 
 Proof.
   intros s t s' H I. step_inv H; simp_proj; try exact I.
   all: try wake_cases; sumf_norm; meas_simpl; try lia.
-  Show.
+Qed.
+
+Lemma wakeup_cover_other : forall b b' w l l' ts, is_fin b' = false -> w <> b ->
+  cover b l ts -> cover b l (snd (wakeup b' w l' ts)).
+Proof.
+  intros b b' w l l' ts NF NE C. destruct (wakeup_effect b' w l' ts NF) as [[-> _]|(u & U & _ & _ & _ & ->)]; auto.
+  apply cover_upd_other; auto.
+Qed.
+
+Lemma cover_remove_only : forall b l ts t T, cover b l ts -> nth_error ts t = Some T -> st T <> b ->
+  cover b (remove1 t l) ts.
+Proof.
+  intros b l ts t T C HT N u U HU HS. apply in_remove1; [eapply C; eauto|]. intros ->. congruence.
+Qed.
+
+Ltac solve_cover :=
+  repeat first
+    [ assumption
+    | apply cover_upd_blk
+    | apply cover_upd_other; [|cbn [st set_prog set_mc set_st finished flush_task]; congruence]
+    | apply cover_app_tasks; [|cbn [st set_prog set_mc set_st finished flush_task]; congruence]
+    | apply wakeup_cover; [reflexivity|congruence|]
+    | apply wakeup_cover_other; [reflexivity|congruence|]
+    | eapply cover_remove_only; [|eassumption|congruence] ].
+
+Lemma cover_step : forall s t s', step s t = Some s' ->
+  cover BlkGet (getters s) (tasks s) /\ cover BlkPut (putters s) (tasks s) ->
+  cover BlkGet (getters s') (tasks s') /\ cover BlkPut (putters s') (tasks s').
+Proof.
+  intros s t s' H [I1 I2]. step_inv H; simp_proj; (split; [clear I2|clear I1]); solve_cover.
+Qed.
+
+Ltac meas_simpl2 :=
+  unfold niflush in *; meas_simpl;
+  repeat match goal with
+         | E : prog ?T = _, K : context [prog ?T] |- _ => lazymatch K with E => fail | _ => rewrite E in K end
+         | E : prog ?T = _ |- context [prog ?T] => rewrite E
+         end;
+  rewrite ?filter_app, ?app_length, ?filter_repeat in *;
+  cbn [filter is_flush is_iflush length app] in *; rewrite ?repeat_length in *.
+
+Definition flags (s : state) : Prop :=
+  (flushed s = true -> closed s = true) /\
+  (flushed s = false -> sumf nflush (tasks s) = 0) /\
+  (has_flush (q s) = true -> flushed s = true) /\
+  (closed s = true -> npre s <= length (sent s)) /\
+  (drained s = true -> closed s = true) /\
+  (closed s = false -> sumf niflush (tasks s) = 0).
+
+Lemma done_closed : forall s, done s = true -> closed s = true.
+Proof. unfold done. intros s H. apply andb_true_iff in H. tauto. Qed.
+
+Lemma flags_step : forall s t s', step s t = Some s' -> flags s -> flags s'.
+Proof.
+  intros s t s' H (F1 & F2 & F3 & F4 & F5 & F6). step_inv H; simp_proj; unfold flags; simp_proj.
+  all: repeat match goal with E : q _ = _ |- _ => rewrite E in *; clear E end.
+  all: cbn [has_flush existsb is_real negb orb] in *.
+  all: repeat match goal with E : done _ = true |- _ => apply done_closed in E; simp_proj end.
+  all: repeat split; try assumption; try congruence; intros HF; auto.
+  all: rewrite ?app_length; try (destruct (closed s) eqn:EC; [specialize (F4 eq_refl)|]; cbn [length]; lia).
+  all: try (fold (has_flush (q s)) in *; rewrite has_flush_app in HF; cbn [has_flush existsb is_real negb orb] in HF;
+            try rewrite orb_false_r in HF; auto).
+  all: try (specialize (F1 HF); congruence).
+  all: try (specialize (F5 HF); congruence).
+  all: try match goal with |- context [after_item ?o _] => destruct o; cbn [after_item fst snd] in * end.
+  all: try (try specialize (F2 HF); try specialize (F6 HF); try wake_cases; sumf_norm; meas_simpl2; lia).
+  all: try (destruct (flushed s) eqn:EF; auto; exfalso; specialize (F2 eq_refl);
+            match goal with E : nth_error (tasks _) _ = Some _ |- _ => pose proof (sumf_nth nflush _ _ _ E) as KK end;
+            meas_simpl2; lia).
+  all: try (apply F3; unfold has_flush in HF; rewrite HF; apply orb_true_r).
+  all: try (specialize (F3 eq_refl); congruence).
+  all: try (destruct (closed s) eqn:EC; auto; exfalso; specialize (F6 eq_refl);
+            match goal with E : nth_error (tasks _) _ = Some _ |- _ => pose proof (sumf_nth niflush _ _ _ E) as KK end;
+            meas_simpl2; lia).
+  all: specialize (F1 (F3 eq_refl)); congruence.
+Qed.
+
+(* ---------------------------------------------------------------- all of it, over Reach *)
+Lemma init_tasks_forall : forall (P : task -> Prop) c,
+  (forall pb, P (mkT (map compile (fst pb)) Ready false 0 (snd pb))) ->
+  forall u U, nth_error (tasks (init c)) u = Some U -> P U.
+Proof.
+  intros P c H u U HU. cbn in HU. rewrite nth_error_map in HU. destruct (nth_error (c_progs c) u); [|discriminate].
+  injection HU as <-. apply H.
+Qed.
+
+Lemma sumf_init_zero : forall f c, (forall pb, f (mkT (map compile (fst pb)) Ready false 0 (snd pb)) = 0) ->
+  sumf f (tasks (init c)) = 0.
+Proof. intros. apply no_blk_count. intros u U HU. eapply (init_tasks_forall (fun T => f T = 0)); eauto. Qed.
+
+Lemma compile_not_flush : forall l, filter is_flush (map compile l) = [] /\ filter is_iflush (map compile l) = [].
+Proof. induction l as [|o l [IH1 IH2]]; cbn; auto. destruct o; cbn; auto. Qed.
+
+Theorem reach_inv1 : forall c s, Reach c s -> inv1 s.
+Proof.
+  induction 1 as [|s t s' R IH Hs].
+  - constructor; cbn [W getters putters flushed closed q sent npre drained init length has_flush existsb]; try congruence; try lia.
+    + symmetry. apply sumf_init_zero. reflexivity.
+    + intros u U HU HS. exfalso. revert HS. eapply (init_tasks_forall (fun T => st T <> BlkGet)); eauto. cbn. congruence.
+    + intros u U HU HS. exfalso. revert HS. eapply (init_tasks_forall (fun T => st T <> BlkPut)); eauto. cbn. congruence.
+    + intros _. apply sumf_init_zero. intros pb. unfold nflush. cbn [prog]. rewrite (proj1 (compile_not_flush _)). reflexivity.
+    + intros _. apply sumf_init_zero. intros pb. unfold niflush. cbn [prog]. rewrite (proj2 (compile_not_flush _)). reflexivity.
+  - destruct IH. destruct (cover_step _ _ _ Hs (conj i_cg0 i_cp0)) as [C1 C2].
+    destruct (flags_step s t s' Hs) as (F1 & F2 & F3 & F4 & F5 & F6).
+    { unfold flags. repeat split; auto. }
+    constructor; auto. eapply W_step; eauto.
 Qed.
